@@ -245,13 +245,14 @@ CheckEnc16(e) ==
        rlp_b |-> Eq(e, "rlp_b", rlp), rlp_rt |-> Eq(e, "rlp_rt", Ok1(a)),
        rlpbits_b |-> Eq(e, "rlpbits_b", RlpStr(be)), rlpbits_rt |-> Eq(e, "rlpbits_rt", Ok1(a)),
        scale_b |-> Eq(e, "scale_b", sc), scale_size |-> Eq(e, "scale_size", Len(sc)),
-       \* size_hint is a capacity hint: it only has to be there (no panic); max_encoded_len is an upper bound
-       scale_hint |-> Has(e, "scale_hint"),
+       \* size_hint is a capacity hint: it need not be exact, but a hint SMALLER than the bytes produced is not "consistent with
+       \* the bytes produced" (C16); max_encoded_len is an upper bound
+       scale_hint |-> Has(e, "scale_hint") /\ e.scale_hint >= Len(sc),
        scale_max |-> Has(e, "scale_max") /\ e.scale_max >= Len(sc),
        scale_rt |-> Eq(e, "scale_rt", Ok2(a, Len(sc))),
        \* compact encoding is documented as unsupported (assert) from 536 bits on
        compact_b |-> n >= 536 \/ Eq(e, "compact_b", cp),
-       compact_hint |-> n >= 536 \/ Has(e, "compact_hint"),
+       compact_hint |-> n >= 536 \/ (Has(e, "compact_hint") /\ e.compact_hint >= Len(cp)),
        compact_rt |-> n >= 536 \/ Eq(e, "compact_rt", Ok2(a, Len(cp))),
        ssz_b |-> Eq(e, "ssz_b", le), ssz_len |-> Eq(e, "ssz_len", nb),
        ssz_fixed |-> Eq(e, "ssz_fixed", <<TRUE, nb, nb>>), ssz_rt |-> Eq(e, "ssz_rt", Ok1(a)),
